@@ -39,7 +39,9 @@ CONSTANTS
   NodeKinds,     \* node records Reveal chooses from
   CallSet,       \* top-level calls
   MaxCalls,
-  SrcEnc, DstEnc,        \* "none" | "rc4" | "aes"
+  SrcEnc, DstEnc,        \* "none" | "rc4" | "aes".  Only "SrcEnc = none or not" matters to the copier
+                         \* (streamCryptRecipe); the Writer and a reader of the target apply the same
+                         \* cipher, so DstEnc is a dimension of the harness's matrix only
   EmptyArrayNil,         \* F4 : CopyArray returns a nil Array for []
   NilEntryPanics,        \* F4b: CopyDict dereferences a nil entry
   KeyByAsked,            \* F10: trans keyed by the reference asked for only
